@@ -219,7 +219,7 @@ HEAD_TEXT = {"DocContent": {"h1": "Chapter One", "h2": "Subsection One"}, "DocxC
 def build_heading_doc(cls, paras):
     dt = _dt()
     if cls == "DocxContent":
-        ps = [dt.DocxParagraph(text=t, style=("Normal" if k == "p" else f"Heading {k[1]}")) for k, t in paras]
+        ps = [dt.DocxParagraph(text=t, style=("Normal" if k == "p" else f"Heading {k[1]}" if k[0] == "h" else f"heading{k[1]}")) for k, t in paras]
         return dt.DocxContent(paragraphs=ps, full_text="\n".join(p.text for p in ps))
     if cls == "OdtContent":
         ps = [dt.OdtParagraph(text=t, outline_level=(None if k == "p" else int(k[1]))) for k, t in paras]
@@ -249,10 +249,34 @@ def section_features(cls, paras):
         f.add("body-before-first-heading")
     if any(k != "p" and not t.strip() for k, t in paras):
         f.add("heading-without-text")
+    if _bare_subtrees(paras):
+        f.add(BARE)
     return sorted(f)
 
 
-def check_sections(cls, paras):
+BARE = "heading-subtree-without-body"      # a feature that only switches off the heading-path check of the headings concerned
+LOCAL_FEATURES = {BARE}
+
+
+def _bare_subtrees(paras):
+    """indices of headings (with text) below which there is no body text up to the next heading of the same or a higher rank"""
+    out = []
+    for i, (k, t) in enumerate(paras):
+        if k == "p" or not t.strip():
+            continue
+        body = False
+        for k2, t2 in paras[i + 1:]:
+            if k2 != "p" and t2.strip() and int(k2[1]) <= int(k[1]):
+                break
+            if k2 == "p" and t2.strip():
+                body = True
+                break
+        if not body:
+            out.append(i)
+    return out
+
+
+def check_sections(cls, paras, exclude=()):
     paras = [tuple(x) for x in paras]
     c = build_heading_doc(cls, paras)
     obs = observe(c)
@@ -277,6 +301,17 @@ def check_sections(cls, paras):
             want_s += " (or the single fallback unit with the whole main text)"
     if not ok:
         return {"target": f"data_types.py::{cls}.iterate_units", "inputs": inputs, "expected": want_s, "observed": repr(obs), "check": "sections"}
+    if has and cls != "DocContent":
+        # "heading text counts as covered by the heading path of its section unit": a heading whose text identifies it (unique in the
+        # document) is in the heading path of at least one unit, and of no unit in front of its own section
+        bare = _bare_subtrees(paras) if BARE in exclude else []
+        heads = [t.strip() for i, (k, t) in enumerate(paras) if k != "p" and t.strip() and i not in bare]
+        all_heads = [t.strip() for k, t in paras if k != "p" and t.strip()]
+        paths = [(n, list(u.get_metadata().heading_path)) for n, u in zip(nums, c.iterate_units())]
+        for h in heads:
+            if all_heads.count(h) == 1 and not any(h in t for k, t in paras if k == "p") and not any(h in hp for _n, hp in paths):
+                return {"target": f"data_types.py::{cls}.iterate_units", "inputs": inputs, "expected": f"heading {h!r} is in the heading path of a unit",
+                        "observed": f"units (number, heading path, text) = {[(n, hp, t) for (n, hp), (_n, t) in zip(paths, obs)]!r}", "check": "sections"}
     return None
 
 
@@ -288,6 +323,12 @@ def section_docs(cls, max_len=5):
     for n in range(0, max_len + 1):
         for kinds in itertools.product(pool, repeat=n):
             yield [(k, (f"body {i}" if t is None else t)) for i, (k, t) in enumerate(kinds)]
+    if cls != "DocContent":
+        # outlines that skip levels / start below level 1 / come back up, every heading with a text of its own: sections with and without body
+        for n in range(1, max_len + 1):
+            for kinds in itertools.product(["h1", "h2", "h3", "p"], repeat=n):
+                if sum(k != "p" for k in kinds) >= 2 and len({k for k in kinds if k != "p"}) >= 2:
+                    yield [(k, (f"body {i}" if k == "p" else f"Head {i}")) for i, k in enumerate(kinds)]
 
 
 def sweep_sections(cls, exclude=(), collect=False):
@@ -296,9 +337,9 @@ def sweep_sections(cls, exclude=(), collect=False):
     seen = {}
     for paras in section_docs(cls):
         feats = section_features(cls, paras)
-        if feats and set(feats) & set(exclude) and not collect:
+        if feats and (set(feats) - LOCAL_FEATURES) & set(exclude) and not collect:
             continue
-        r = check_sections(cls, paras)
+        r = check_sections(cls, paras, () if collect else exclude)
         if r:
             if not collect:
                 return r
@@ -713,8 +754,10 @@ def token_coverage(obs, want, what):
 ODP_STYLES = {"title": "Title", "title2": "TitleText", "body": "BodyText", "outline": "P3", "none": None}
 
 
-def odp_rich_doc(slides):
-    """slides: [[(style key, text), ...]]: every paragraph in a text box of its own frame, frames top to bottom"""
+def odp_rich_doc(slides, notes=None):
+    """slides: [[(style key, text), ...]]: every paragraph in a text box of its own frame, frames top to bottom.
+    notes: per slide None or (placement, [texts]): a <presentation:notes> child of the page (the notes PAGE of the slide: thumbnail +
+    notes text frame(s); it is not slide body) placed "first" / "last" among the page's children, its frames positioned above the body frames."""
     ns = ('xmlns:office="urn:oasis:names:tc:opendocument:xmlns:office:1.0" xmlns:draw="urn:oasis:names:tc:opendocument:xmlns:drawing:1.0" '
           'xmlns:text="urn:oasis:names:tc:opendocument:xmlns:text:1.0" xmlns:presentation="urn:oasis:names:tc:opendocument:xmlns:presentation:1.0" '
           'xmlns:svg="urn:oasis:names:tc:opendocument:xmlns:svg-compatible:1.0" xmlns:xlink="http://www.w3.org/1999/xlink"')
@@ -724,6 +767,13 @@ def odp_rich_doc(slides):
         for j, (style, text) in enumerate(paras):
             st = f' text:style-name="{ODP_STYLES[style]}"' if ODP_STYLES[style] else ""
             frames += f'<draw:frame svg:x="1cm" svg:y="{j + 1}cm"><draw:text-box><text:p{st}>{text}</text:p></draw:text-box></draw:frame>'
+        note = ""
+        if notes and notes[i]:
+            where, texts = notes[i]
+            nf = "".join(f'<draw:frame presentation:class="notes" svg:x="0cm" svg:y="0.{j}cm"><draw:text-box><text:p>{t}</text:p></draw:text-box></draw:frame>'
+                         for j, t in enumerate(texts))
+            note = f'<presentation:notes><draw:page-thumbnail presentation:class="page"/>{nf}</presentation:notes>'
+            frames = note + frames if where == "first" else frames + note
         pages += f'<draw:page draw:name="s{9 - i}">{frames}</draw:page>'
     buf = io.BytesIO()
     with zipfile.ZipFile(buf, "w") as z:
@@ -735,19 +785,29 @@ def odp_rich_doc(slides):
     return buf.getvalue()
 
 
-def check_odp_rich(slide_styles):
+def check_odp_rich(slide_styles, notes=None):
+    """notes: per slide None or [placement, number of note paragraphs]: speaker notes are not slide body -- their text is in no unit"""
     from sharepoint2text.parsing.extractors.open_office.odp_extractor import read_odp
     slides = [[(st, f"tok{i}x{j}") for j, st in enumerate(styles)] for i, styles in enumerate(slide_styles)]
-    c = next(read_odp(io.BytesIO(odp_rich_doc(slides))))
+    nts = [((n[0], [f"note{i}n{j}" for j in range(n[1])]) if n else None) for i, n in enumerate(notes)] if notes else None
+    c = next(read_odp(io.BytesIO(odp_rich_doc(slides, nts))))
     obs = observe(c)
     want = {t: i + 1 for i, ps in enumerate(slides) for (_s, t) in ps}
     why = None if [n for n, _t in obs] == list(range(1, len(slides) + 1)) else f"unit numbers {[n for n, _t in obs]}"
     why = why or token_coverage(obs, want, "paragraph")
+    if why is None and nts:
+        for n in nts:
+            for t in (n[1] if n else ()):
+                holders = [k for k, u in obs if t in u]
+                if holders:
+                    why = f"speaker note {t!r} (not slide body) is found in units {holders}"
+                    break
     if why is None and c.get_full_text() != spec_fulltext(obs):
         why = "full text differs from the joined unit texts"
     if why:
-        return {"target": "odp_extractor.py::read_odp", "inputs": {"check": "odp_rich", "paragraph_styles_per_slide": slide_styles},
-                "expected": "one unit per slide; every paragraph text exactly once, in the unit of its slide", "observed": f"{why}; units={obs!r}", "check": "odp_rich"}
+        return {"target": "odp_extractor.py::read_odp", "inputs": {"check": "odp_rich", "paragraph_styles_per_slide": slide_styles, "notes_per_slide": notes},
+                "expected": "one unit per slide; every paragraph text exactly once, in the unit of its slide; speaker notes in no unit",
+                "observed": f"{why}; units={obs!r}", "check": "odp_rich"}
     return None
 
 
@@ -758,6 +818,14 @@ def sweep_odp_rich():
             r = check_odp_rich(layout)
             if r:
                 return r
+    for layout in ([["title", "body"]], [["body"], ["none", "body"]], [[], ["body"]]):      # slides with a notes page (also an image-only / empty slide)
+        for where in ("last", "first"):
+            for k in (1, 2):
+                for which in itertools.product([False, True], repeat=len(layout)):
+                    if any(which):
+                        r = check_odp_rich(layout, [[where, k] if w else None for w in which])
+                        if r:
+                            return r
     return None
 
 
@@ -879,46 +947,84 @@ def mail_features(kinds):
     return ["several-inline-parts-of-the-body-kind"] if list(kinds).count(shown) > 1 else []
 
 
-def pdf_text_doc(n_pages, unreadable=()):
-    """n pages with one text token each; pages listed in `unreadable` get a content stream pypdf cannot decode"""
+PDF_LAYOUTS = ("own", "form", "form-shared-stream", "encoding")
+
+
+def pdf_text_doc(n_pages, unreadable=(), layout="own", blank=()):
+    """n pages with one text token each; pages listed in `unreadable` get a content stream pypdf cannot decode.
+    pages listed in `blank` have no content at all (scanned sheets without a text layer, separator pages).
+    layout: what a page shows is its content stream RESOLVED AGAINST ITS OWN /Resources --
+      "own"                 every page has its own content stream with the text in it;
+      "form"                every page's content stream is the same wrapper bytes (`q /Fx0 Do Q`, the output of imposition / stamping /
+                            import-as-XObject tools), the page's /Resources bind /Fx0 to the form XObject with that page's text;
+      "form-shared-stream"  the same, and the wrapper is ONE indirect stream object referenced by every page;
+      "encoding"            identical content bytes `<41> Tj`, every page's /F1 has its own /Differences encoding for code 0x41."""
     from pypdf import PdfWriter
-    from pypdf.generic import DictionaryObject, NameObject, StreamObject
+    from pypdf.generic import ArrayObject, DictionaryObject, FloatObject, NameObject, NumberObject, StreamObject
     w = PdfWriter()
+    mkfont = lambda: DictionaryObject({NameObject("/Type"): NameObject("/Font"), NameObject("/Subtype"): NameObject("/Type1"), NameObject("/BaseFont"): NameObject("/Helvetica")})
+    shared = None
     for i in range(n_pages):
         p = w.add_blank_page(width=200, height=200)
+        if i in blank:
+            continue
         s = StreamObject()
+        res = DictionaryObject({NameObject("/Font"): DictionaryObject({NameObject("/F1"): w._add_object(mkfont())})})
         if i in unreadable:
             s[NameObject("/Filter")] = NameObject("/ASCIIHexDecode")
             s._data = b"ZZ not hex >"
+        elif layout in ("form", "form-shared-stream"):
+            form = StreamObject()
+            form._data = f"BT /F1 12 Tf 20 100 Td (tok{i}) Tj ET".encode()
+            form[NameObject("/Type")] = NameObject("/XObject")
+            form[NameObject("/Subtype")] = NameObject("/Form")
+            form[NameObject("/BBox")] = ArrayObject([FloatObject(0), FloatObject(0), FloatObject(200), FloatObject(200)])
+            form[NameObject("/Resources")] = res
+            res = DictionaryObject({NameObject("/XObject"): DictionaryObject({NameObject("/Fx0"): w._add_object(form)})})
+            s._data = b"q 1 0 0 1 0 0 cm /Fx0 Do Q"
+        elif layout == "encoding":
+            # the glyph names zero .. nine: page i shows the digit i for the one code in the stream (tokens are "tok<i>" elsewhere; here "<i>")
+            names = ["zero", "one", "two", "three", "four", "five", "six", "seven", "eight", "nine"]
+            f = mkfont()
+            f[NameObject("/Encoding")] = DictionaryObject({NameObject("/Type"): NameObject("/Encoding"), NameObject("/BaseEncoding"): NameObject("/WinAnsiEncoding"),
+                                                          NameObject("/Differences"): ArrayObject([NumberObject(0x41), NameObject("/" + names[i])])})
+            res = DictionaryObject({NameObject("/Font"): DictionaryObject({NameObject("/F1"): w._add_object(f)})})
+            s._data = b"BT /F1 12 Tf 20 100 Td (tokA) Tj ET"
         else:
             s._data = f"BT /F1 12 Tf 20 100 Td (tok{i}) Tj ET".encode()
-        p[NameObject("/Contents")] = w._add_object(s)
-        font = DictionaryObject({NameObject("/Type"): NameObject("/Font"), NameObject("/Subtype"): NameObject("/Type1"), NameObject("/BaseFont"): NameObject("/Helvetica")})
-        p[NameObject("/Resources")] = DictionaryObject({NameObject("/Font"): DictionaryObject({NameObject("/F1"): w._add_object(font)})})
+        if layout == "form-shared-stream" and i not in unreadable:
+            shared = shared or w._add_object(s)
+            p[NameObject("/Contents")] = shared
+        else:
+            p[NameObject("/Contents")] = w._add_object(s)
+        p[NameObject("/Resources")] = res
     buf = io.BytesIO()
     w.write(buf)
     return buf.getvalue()
 
 
-def check_pdf_text(n_pages, unreadable=()):
+def check_pdf_text(n_pages, unreadable=(), layout="own", blank=()):
     """A document is either refused as a whole or every page is a unit at its own position (a page that cannot be read must not
     make the later pages move up)."""
     from sharepoint2text.parsing.extractors.pdf.pdf_extractor import read_pdf
     try:
-        c = next(read_pdf(io.BytesIO(pdf_text_doc(n_pages, tuple(unreadable)))))
+        c = next(read_pdf(io.BytesIO(pdf_text_doc(n_pages, tuple(unreadable), layout, tuple(blank)))))
     except Exception as e:  # noqa  -- refusing the document is allowed (failure surface is C01's)
         if unreadable:
             return None
-        return {"target": "pdf_extractor.py::read_pdf", "inputs": {"check": "pdf_text", "pages": n_pages, "unreadable": list(unreadable)},
+        return {"target": "pdf_extractor.py::read_pdf", "inputs": {"check": "pdf_text", "pages": n_pages, "unreadable": list(unreadable), "layout": layout, "blank": list(blank)},
                 "expected": "a well-formed PDF is extracted", "observed": f"{type(e).__name__}: {e}"[:200], "check": "pdf_text"}
     obs = observe(c)
-    want = {f"tok{i}": i + 1 for i in range(n_pages) if i not in unreadable}
+    want = {f"tok{i}": i + 1 for i in range(n_pages) if i not in unreadable and i not in blank}
     why = None if [n for n, _t in obs] == list(range(1, n_pages + 1)) else f"{n_pages} pages but unit numbers {[n for n, _t in obs]}"
     why = why or token_coverage(obs, want, "page text")
+    if why is None:
+        full = [n for n, t in obs if n - 1 in blank and t.strip()]
+        why = f"page(s) {full} have no content but their units have text" if full else None
     if why is None and c.get_full_text() != spec_fulltext(obs):
         why = "full text differs from the joined unit texts"
     if why:
-        return {"target": "pdf_extractor.py::read_pdf", "inputs": {"check": "pdf_text", "pages": n_pages, "unreadable": list(unreadable)},
+        return {"target": "pdf_extractor.py::read_pdf", "inputs": {"check": "pdf_text", "pages": n_pages, "unreadable": list(unreadable), "layout": layout, "blank": list(blank)},
                 "expected": "one unit per page, numbered by page position, each holding that page's text (or the document is refused)",
                 "observed": f"{why}; units={obs!r}", "check": "pdf_text"}
     return None
@@ -934,38 +1040,66 @@ def sweep_pdf_text():
                 r = check_pdf_text(n, bad)
                 if r:
                     return r
+    for n in (2, 3):                     # pages without content among pages with text
+        for k in range(1, n):
+            for bl in itertools.combinations(range(n), k):
+                r = check_pdf_text(n, (), "own", bl)
+                if r:
+                    return r
+    for layout in PDF_LAYOUTS[1:]:       # pages whose content bytes are identical: what they show comes from their own /Resources
+        for n, bad in ((3, ()), (2, ()), (3, (1,)), (3, (0,))):
+            r = check_pdf_text(n, bad, layout)
+            if r:
+                return r
     return None
 
 
-def mbox_doc(bodies, pad="\n\n", eol="\n", header_only=()):
+MBOX_IDS = ("unique", "none", "same", "empty", "first-only", "identical")     # identical: every header line is the same (a message stored twice)
+
+
+def _mbox_id_line(mode, i):
+    """Message-ID header line of message i: the header is OPTIONAL (RFC 5322 3.6: SHOULD) and nothing makes stored messages carry
+    distinct ones (drafts, local delivery, cron mail, re-sent list mail); a message is what stands between two separator lines."""
+    if mode == "none" or (mode == "first-only" and i > 0):
+        return ""
+    if mode == "same":
+        return "Message-ID: <same@x>\n"
+    if mode == "empty":
+        return "Message-ID: \n"
+    return f"Message-ID: <{i}@x>\n"
+
+
+def mbox_doc(bodies, pad="\n\n", eol="\n", header_only=(), ids="unique"):
     """Mailbox: every message starts with a `From ` separator LINE (that is the format's definition of a message
     boundary); `pad` is what the writer puts after a body (a blank line, only the line end, nothing more), `eol` the
     line ending; messages listed in header_only have no body at all (they end with their last header line)."""
     out = ""
-    for i, b in enumerate(bodies):
+    for j, b in enumerate(bodies):
+        i = 0 if ids == "identical" else j
         out += f"From s{i}@x.org Mon Jan  1 00:00:0{i} 2024\nFrom: s{i}@x.org\nTo: r@x.org\nSubject: m{i}\n" \
-               f"Date: Mon, 1 Jan 2024 00:00:0{i} +0000\nMessage-ID: <{i}@x>\n"
+               f"Date: Mon, 1 Jan 2024 00:00:0{i} +0000\n" + _mbox_id_line(ids, i)
+        i = j
         if i in header_only:
             continue
         out += f"\n{b}{pad}"
     return out.replace("\n", eol).encode()
 
 
-def check_mbox(bodies, pad="\n\n", eol="\n", header_only=(), loose=False):
+def check_mbox(bodies, pad="\n\n", eol="\n", header_only=(), loose=False, ids="unique"):
     """loose=True: a body line may come back with one level of '>' quoting removed (mboxrd readers differ); everything else exact"""
     from sharepoint2text.parsing.extractors.mail.mbox_email_extractor import read_mbox_format_mail
     header_only = tuple(header_only)
-    data = mbox_doc(bodies, pad, eol, header_only)
+    data = mbox_doc(bodies, pad, eol, header_only, ids)
     res = list(read_mbox_format_mail(io.BytesIO(data)))
     subj = [m.subject for m in res]
     per = [observe(m) for m in res]
     want = [("" if i in header_only else b.replace("\n", eol).strip()) for i, b in enumerate(bodies)]
-    ok = subj == [f"m{i}" for i in range(len(bodies))] \
+    ok = subj == [f"m{0 if ids == 'identical' else i}" for i in range(len(bodies))] \
         and all(len(o) == 1 and o[0][0] == 1 and _same_body(o[0][1].replace("\r\n", "\n"), w.replace("\r\n", "\n"), loose) for o, w in zip(per, want)) \
         and all(m.get_full_text() == spec_fulltext(o) for m, o in zip(res, per))
     if not ok:
         return {"target": "mbox_email_extractor.py::read_mbox_format_mail",
-                "inputs": {"check": "mbox", "bodies": bodies, "pad": pad, "eol": eol, "header_only": list(header_only), "loose": loose, "mbox": data.decode()},
+                "inputs": {"check": "mbox", "bodies": bodies, "pad": pad, "eol": eol, "header_only": list(header_only), "loose": loose, "message_ids": ids, "mbox": data.decode()},
                 "expected": "one EmailContent per `From ` separator line, in mailbox order, each with one unit numbered 1 holding that message's body",
                 "observed": f"{len(res)} message(s): subjects={subj} units={per}", "check": "mbox"}
     return None
@@ -996,6 +1130,11 @@ def sweep_mbox():
                     r = check_mbox(list(st), pad, eol)
                     if r:
                         return r
+    for ids in MBOX_IDS[1:]:                      # messages without / with repeated Message-ID headers, equal and different bodies
+        for bodies in (["hello", "", "two\nlines"], ["hello", "hello"], ["a", "b", "a"]):
+            r = check_mbox(bodies, "\n\n", "\n", (), ids=ids)
+            if r:
+                return r
     for ho in ((0,), (1,), (0, 1)):               # messages without a body
         for eol in ("\n", "\r\n"):
             r = check_mbox(["a", "b", "c"], "\n\n", eol, ho)
@@ -1300,13 +1439,13 @@ def rerun(stored):
     elif chk == "flowing":
         r = check_flowing(inp["format"], inp["paragraphs"])
     elif chk == "odp_rich":
-        r = check_odp_rich(inp["paragraph_styles_per_slide"])
+        r = check_odp_rich(inp["paragraph_styles_per_slide"], inp.get("notes_per_slide"))
     elif chk == "pptx_rich":
         r = check_pptx_rich(inp["shape_kinds_per_slide"])
     elif chk == "mail_parts":
         r = check_mail_parts(inp["format"], inp["inline_parts"], inp.get("subtype", "mixed"))
     elif chk == "pdf_text":
-        r = check_pdf_text(inp["pages"], inp.get("unreadable", ()))
+        r = check_pdf_text(inp["pages"], inp.get("unreadable", ()), inp.get("layout", "own"), inp.get("blank", ()))
     elif chk == "sheets":
         r = check_sheets(inp["format"], inp["sheet_kinds"])
     elif chk == "sections":
@@ -1330,7 +1469,7 @@ def rerun(stored):
     elif chk == "pdf":
         r = check_pdf(inp["blank_pages"])
     elif chk == "mbox":
-        r = check_mbox(inp["bodies"], inp.get("pad", "\n\n"), inp.get("eol", "\n"), inp.get("header_only", ()), inp.get("loose", False))
+        r = check_mbox(inp["bodies"], inp.get("pad", "\n\n"), inp.get("eol", "\n"), inp.get("header_only", ()), inp.get("loose", False), inp.get("message_ids", "unique"))
     if r:
         r["reproduced"] = True
         return r
